@@ -290,6 +290,7 @@ def run(rep, tier):
     check_av_invariant(rep, F)
     check_correction_filter(rep, F)
     check_fresh_diagonal(rep, F)
+    check_restart_size(rep, F)
     rep.assumptions += ["that returned values are the lowest eigenvalues, orthonormality, residual bounds, convergence for diagonally dominant "
                         "matrices and the Hamiltonian mode are numerical properties: not decided (most of the property)"]
 
@@ -549,6 +550,26 @@ def check_correction_filter(rep, F):
     if ok and n_f == 0:
         ok, why = False, "no filtered return found"
     rep.check(ok, "R9.8", "finite-correction", "non-finite entries of the correction vector become 0", "DavidsonSolver::computeCorrectionVector: " + why, f.loc(), sample=True)
+
+
+def check_restart_size(rep, F):
+    """R9.10: restart() keeps the Ritz vectors and the columns appended in this iteration; it must be told how many columns extendProjection really
+    appended (its return value: the number of unconverged roots), not a configured upper bound"""
+    rep.rule("R9.10", "solve(): the size handed to restart() is the value extendProjection returned in the same iteration (the number of correction vectors it appended); "
+                      "a larger number makes restart copy stale basis columns next to the Ritz vectors, and the basis is no longer orthonormal")
+    fs = [f for f in F.funcs if f.qname == D + "solve"]
+    if not fs:
+        rep.broken("R9.10", "DavidsonSolver::solve not found")
+        return
+    f = fs[0]
+    fo = Fold(f, opaque_types=r"Eigen::Matrix<|RitzEigenPair|ProjectedSpace", inline=False, record_calls=r"DavidsonSolver::(restart|extendProjection)$").run()
+    ext = [e for e in fo.events if e["kind"] == "call" and e["callee"].endswith("::extendProjection")]
+    rst = [e for e in fo.events if e["kind"] == "call" and e["callee"].endswith("::restart")]
+    ok, why = len(ext) == 1 and len(rst) == 1, "expected one extendProjection and one restart call in the iteration (found %d, %d)" % (len(ext), len(rst))
+    if ok:
+        ok = fo.events.index(ext[0]) < fo.events.index(rst[0]) and len(rst[0]["args"]) >= 3 and str(rst[0]["args"][-1]) == str(ext[0]["value"])
+        why = "restart is called with %s; extendProjection returned %s" % (str(rst[0]["args"][-1])[:80] if rst[0]["args"] else "?", str(ext[0]["value"])[:80])
+    rep.check(ok, "R9.10", "restart-size", "restart(rep, proj, <what extendProjection returned>)", "DavidsonSolver::solve: " + why, f.loc(rst[0]["node"]) if rst else f.loc(), sample=True)
 
 
 def check_fresh_diagonal(rep, F):
